@@ -10,6 +10,7 @@ import PdshVerif.Dsh.SignalsOnce
 import PdshVerif.Dsh.SignalsList
 import PdshVerif.Dsh.SignalsOrder
 import PdshVerif.Dsh.SignalsExit
+import PdshVerif.Dsh.SignalsOutput
 import PdshVerif.Props.C03
 import PdshVerif.Props.C04
 
@@ -59,6 +60,17 @@ What is proved (for every `v`, `f`, `n`, every schedule and arrival time unless 
       the watchdog never holds threadcount_mutex, and whoever holds either mutex has an enabled operation of its own
       that acquires nothing — a holder never waits, so the wait-for graph has no cycle; in particular the signals
       thread and the watchdog cannot hold each other's mutex in reverse order;
+* `normal_exit_records_whole`, `abort_tears_at_most_the_last_record`, `no_deadlock_with_stdio`, `product_projects`
+      "never corrupts the output of hosts that complete": the product of the LTS with one output stream under what stdio
+      guarantees — per-call atomicity (`Dsh/SignalsOutput.lean`: a call locks the FILE, copies its bytes, unlocks; one
+      call = one record, as C06 `line_records_atomic` shows of dsh.c; a thread inside a call performs no protocol
+      operation; exit() stops everything wherever the others are).  At a normal end no call is in progress and the stream
+      is the concatenation of whole records; at ANY moment — so also when an abort calls exit() while workers are inside
+      fputs — the stream is whole records followed by at most one incomplete record, which is the last thing in the
+      stream, a prefix of what its owner was writing, and owned by the signals thread or by a worker that has not
+      completed: the records of every host that completed are whole (that one record can be cut anywhere is witnessed by
+      the example).  The FILE lock is a third mutex and a leaf: its holder — even the signals thread printing a listing
+      with thd_mutex held, or the canceled count with threadcount_mutex held — never waits; the product never deadlocks;
 * `canceled_run_S_nonzero`, `harmless_same_exit_status`   (composition with C08's model of the -S loop, `Dsh/Exit.lean`)
       a run in which ^C ^Z cancels a target that was not started and that goes on to its normal end exits non-zero under
       -S (repaired worker, repaired loop: the slot is still CANCELED when dsh() returns and the loop counts it); after a
@@ -116,10 +128,10 @@ What is proved (for every `v`, `f`, `n`, every schedule and arrival time unless 
 Not proved here: that dsh.c refines the LTS (trace correspondence of `checks/c20.py`: every event enabled, equal
 threadcount / t[i].state / enabled sets, the hosts the listing names = `St.listed`; plus the real dsh.c on real threads
 with real signals, `harness/sigthread_harness.c`, which is what decides `_mask_signals` and the sigwait set); fairness of
-the real scheduler (`no_deadlock_with_signals` says a step is *possible*); the content of relayed output (C05/C06 —
-"never corrupts the output of hosts that complete" is decided per run by the monitors on the fputs payloads; the
-composition "a worker past its flush has no stdio call in progress, so an abort can tear at most the record in progress
-on each FILE" needs the product of this LTS with a per-FILE call automaton and is not done); connect/command time-outs
+the real scheduler (`no_deadlock_with_signals` says a step is *possible*); the content of relayed output (which bytes
+a record consists of is C05/C06; here a record is an opaque call, and per-call atomicity of stdio is the modelled
+guarantee, not something proved of libc; glibc's exit() flushing a FILE without taking its lock can, beyond the model,
+also duplicate buffered bytes of a fully-buffered stdout — runtime behaviour, see the MANIFEST note); connect/command time-outs
 together with interrupts (the watchdog is here with its mutex discipline, `lock_order`, not with its clock: the Timed
 model of C07 is not composed); -k, pthread_create/rcmd_create failure; plain-memory races below the granularity of
 wrapped calls (`_cancel_pending_threads`' check-then-write vs. `_update_connect_state`); exit() racing with stdio locks.
@@ -350,6 +362,79 @@ theorem harmless_same_exit_status (s : St) (fx : PdshVerif.Dsh.Exit.Fixes) (fl :
     host 0 completes, dsh() returns) with codes [0, 0] under -S: status 254, not 0 -/
 example : PdshVerif.Dsh.Exit.mainExit PdshVerif.Dsh.Exit.Fixes.all ⟨true, false⟩
     (.started (finalHosts [.done, .canceled] [0, 0])) = 254 := by decide
+
+/-! ## interrupts and the output stream: what an abort can tear; the stdio lock as third mutex -/
+
+/-- the protocol part of a run of the product (protocol LTS × one output stream under per-call atomicity,
+    `Dsh/SignalsOutput.lean`) is a run of the protocol LTS: every theorem of this file holds of it -/
+theorem product_projects {v : Variant} {g sw : Bool} {f n t0 : Nat} {b : Bool} {ls : List PLabel} {p : PSt}
+    (he : PExec (pinit v g sw f n b t0) ls p) :
+    Exec (init v g sw f n b t0) (ls.filterMap fun l => match l with | .proto x => some x | _ => none) p.p :=
+  pexec_proj he
+
+/-- C20 ("never corrupts the output of hosts that complete"), normal end: with the repaired shutdown, when dsh() has
+    returned — whatever interrupts arrived, whatever was listed or canceled — no stdio call is in progress and the stream
+    is exactly the concatenation of the records written: nothing is torn, nothing is interleaved -/
+theorem normal_exit_records_whole {v : Variant} {g : Bool} {f n t0 : Nat} {b : Bool} {ls : List PLabel} {p : PSt}
+    (he : PExec (pinit v g true f n b t0) ls p) (hr : p.p.dpc = .returned) :
+    p.out.cur = none ∧ content p.out = p.out.done.flatMap (·.bytes) := by
+  obtain ⟨hinv, ho⟩ := pexec_invs he
+  have hsw : p.p.sw = true := by
+    have := exec_sw (pexec_proj he); simpa [pinit, init] using this
+  exact normal_end_whole hinv ho hsw hr
+
+/-- C20, the abort (`errx` from the signals thread while workers are inside `fputs`) — and every other moment: the
+    stream is a sequence of WHOLE records followed by at most ONE incomplete record; the incomplete one is the last
+    thing in the stream and a prefix of the record its owner was writing; its owner is the signals thread or a worker
+    that has not completed; a host that has completed (result recorded, buffers flushed) has no call in progress, so
+    all its records are whole.  This is exactly what per-call atomicity of stdio gives, and all of it: the record in
+    progress when exit() is called may be cut anywhere -/
+theorem abort_tears_at_most_the_last_record {v : Variant} {g sw : Bool} {f n t0 : Nat} {b : Bool} {ls : List PLabel}
+    {p : PSt} (he : PExec (pinit v g sw f n b t0) ls p) :
+    (p.out.cur = none → content p.out = p.out.done.flatMap (·.bytes)) ∧
+    (∀ c k, p.out.cur = some (c, k) →
+      content p.out = p.out.done.flatMap (·.bytes) ++ c.bytes.take k ∧ k ≤ c.bytes.length ∧
+      (c.owner = .s ∨ ∃ j, c.owner = .w j ∧ completedW (pc p.p j) = false)) ∧
+    (∀ j, completedW (pc p.p j) = true → inCall p.out (.w j) = false) := by
+  obtain ⟨hinv, ho⟩ := pexec_invs he
+  exact ⟨(stream_shape hinv ho).1, (stream_shape hinv ho).2, fun j hj => completed_host_not_in_call ho hj⟩
+
+/-- C20 (never deadlocks), with the stdio lock as a third mutex: whoever is inside a stdio call — possibly the signals
+    thread holding thd_mutex (listing) or threadcount_mutex (canceled count) — can always go on (the FILE lock is a
+    leaf: lock order  threadcount_mutex | thd_mutex → FILE, never back), and until dsh() has returned or exit() was
+    called some thread of pdsh can take a step in the product -/
+theorem no_deadlock_with_stdio {v : Variant} {g sw : Bool} {f n t0 : Nat} {b : Bool} {ls : List PLabel} {p : PSt}
+    (hf : 0 < f) (he : PExec (pinit v g sw f n b t0) ls p) (hnf : ¬ Final p.p) :
+    (∀ c k, p.out.cur = some (c, k) → (pstep p .copy).isSome = true ∨ (pstep p .finish).isSome = true) ∧
+    ∃ l, l.proper = true ∧ (pstep p l).isSome = true := by
+  obtain ⟨hinv, ho⟩ := pexec_invs he
+  have hx : p.p.exited = none := by
+    cases hx : p.p.exited with
+    | none => rfl
+    | some c => exact absurd (Or.inr (by rw [hx]; rfl)) hnf
+  have hr : p.p.dpc ≠ .returned := fun hc => hnf (Or.inl hc)
+  have hfs : 0 < p.p.f := by
+    have := (exec_params (pexec_proj he)).2.1
+    rw [this]; simpa [pinit, init] using hf
+  exact ⟨fun c k hc => file_holder_runs ho hx hc, product_progress hinv ho hfs hx hr⟩
+
+/-- non-vacuity, an abort that tears a record: -b, N = 1; host 0 is in its read loop and has put 2 of the 3 bytes of a
+    record into the stream when ^C arrives; the signals thread forwards SIGINT and calls exit(1) while the worker is
+    still inside its call: the stream ends with the 2-byte prefix, after the one whole record written before -/
+example : (prun (pinit .whileWait true false 1 1 true 10)
+    ([.d .createS, .d .lock, .d (.create 0), .d .unlock, .w 0 .lockT, .w 0 .unlockT, .w 0 .connectBegin,
+      .w 0 (.connectEnd true), .w 0 .lockT, .w 0 .time, .w 0 .unlockT].map .proto ++
+     [.begin ⟨.w 0, [1, 2]⟩, .copy, .copy, .finish, .begin ⟨.w 0, [7, 8, 9]⟩, .copy, .copy] ++
+     [.e (.deliver .int), .s (.sigwait .int), .s .lockT, .s (.fwd 0), .s .unlockT, .s (.exit 1)].map .proto)).map
+      (fun p => (content p.out, p.p.exited, p.p.fwds)) = some ([1, 2, 7, 8], some 1, [0]) := by decide
+
+/-- ... and a worker inside a call cannot perform a protocol operation, nor can a second call begin -/
+example : (prun (pinit .whileWait true false 1 1 true 10)
+    ([.d .createS, .d .lock, .d (.create 0), .d .unlock, .w 0 .lockT, .w 0 .unlockT, .w 0 .connectBegin,
+      .w 0 (.connectEnd true), .w 0 .lockT, .w 0 .time, .w 0 .unlockT].map .proto ++
+     [.begin ⟨.w 0, [7, 8, 9]⟩, .copy])).map
+      (fun p => ((pstep p (.proto (.w 0 .lockT))).isSome, (pstep p (.begin ⟨.s, [5]⟩)).isSome, (pstep p .copy).isSome)) =
+    some (false, false, true) := by decide
 
 /-! ## ^C ^Z -/
 
